@@ -16,8 +16,7 @@ EXPLANATION = (
 EXHAUSTIVE = True
 
 # outside the property's quantifier (constructors, accessors, helpers that are documented to panic on foreign modules)
-OUTSIDE = {"new", "new_from_module", "default", "module", "module_ref", "module_mut", "find_return_block_indices",
-           "select_function_by_name"}
+OUTSIDE = {"new", "new_from_module", "default", "module", "module_ref", "module_mut", "find_return_block_indices"}
 
 INIT = (None, None)
 
